@@ -233,7 +233,7 @@ func (tree *MutableTree) Iterate(fn func(key []byte, value []byte) bool) (stoppe
 			return true, nil
 		}
 	}
-	return false, nil
+	return false, itr.Error()
 }
 
 // Iterator returns an iterator over the mutable tree.
@@ -579,6 +579,9 @@ func (tree *MutableTree) enableFastStorageAndCommitIfNotEnabled() (bool, error) 
 		if err := tree.ndb.DeleteFastNode(fastItr.Key()); err != nil {
 			return false, err
 		}
+	}
+	if err := fastItr.Error(); err != nil {
+		return false, err
 	}
 
 	if err := tree.enableFastStorageAndCommit(); err != nil {
